@@ -15,7 +15,8 @@ content `t` of the target, every order the datastore lists/streams the entries i
   (after 2096d62: no Commit when nothing was added) behaves as the raft manager on every stream.
 Rotation: `rotate_spec` (every retention ≥ 1, every pre-existing folder set, every
 operation sequence, every observation window), `never_more_than_n`.
-Peerstore: `peerstore_roundtrip`, `bad_lines_skipped` (every file; the 64 KiB limit, former finding
+Peerstore: `peerstore_roundtrip`, `final_newline_irrelevant`, `crlf_irrelevant`, `bad_lines_skipped_shaped`
+(every file shape), `bad_lines_skipped` (every file; the 64 KiB limit, former finding
 K19, was removed from the code by 610b52a).
 -/
 set_option linter.unusedSimpArgs false
@@ -212,15 +213,66 @@ theorem bad_lines_skipped (file : List Line) :
     load file = file.filter Line.loads ∧
     (∀ l ∈ load file, l.loads = true) ∧
     (∀ (a b : List Line) (bad : Line), bad.loads = false → load (a ++ bad :: b) = load a ++ load b) ∧
-    (∀ self order, (fileClauses self file { loaded := (load file).map some, order := order, panic := false }).head? =
-        some ("bad_lines_skipped", true)) := by
+    (∀ self order, (fileClauses self { finalNewline := true, bom := false } (file.map (fun l => ⟨l, 0⟩))
+        { loaded := (load file).map some, order := order, panic := false }).head? = some ("bad_lines_skipped", true)) := by
   refine ⟨rfl, ?_, ?_, ?_⟩
   · intro l hl
     exact (List.mem_filter.1 hl).2
   · intro a b bad hb
     simp [load, List.filter_append, hb]
   · intro self order
-    simp [fileClauses, load]
+    have h := validLines_plain file
+    simp [fileClauses, load, h]
+
+/-- What `LoadPeerstore` returns does not depend on whether the last line of the file is terminated
+    by a newline (the text that `ReadString` returns together with `io.EOF` is looked at too). -/
+theorem final_newline_irrelevant (b1 b2 bom : Bool) (file : List FLine) :
+    loadShaped { finalNewline := b1, bom := bom } file = loadShaped { finalNewline := b2, bom := bom } file := rfl
+
+/-- "\r\n" line ends load exactly like "\n" line ends: the one trailing "\r" the code strips never
+    matters, line by line (lines with a second "\r" keep it in both files). -/
+theorem crlf_irrelevant (sh : FileShape) (file : List FLine) :
+    loadShaped sh (file.map FLine.stripCr) = loadShaped sh file := by
+  have hp : ∀ fl : FLine, fl.stripCr.parses = fl.parses := by
+    intro fl
+    unfold FLine.stripCr FLine.parses
+    by_cases h : fl.cr ≤ 1 <;> simp [h]
+  have hf : ∀ l : List FLine, ((l.map FLine.stripCr).filter FLine.parses).map (·.l) = (l.filter FLine.parses).map (·.l) := by
+    intro l
+    induction l with
+    | nil => rfl
+    | cons x t ih =>
+      simp only [List.map_cons, List.filter_cons, hp]
+      by_cases hx : x.parses = true
+      · simp only [hx, if_true, List.map_cons, ih]; rfl
+      · simp only [hx, Bool.false_eq_true, if_false, ih]
+  unfold loadShaped
+  cases sh.bom
+  · exact hf file
+  · simp only [if_true, ← List.map_drop]; exact hf (file.drop 1)
+
+/-- Every line of the file that is a multiaddress as written is loaded, in file order, and nothing
+    else — for every file shape (line ends, final newline or not, byte order mark); the Bool clause
+    of the checker holds for the model's result. -/
+theorem bad_lines_skipped_shaped (sh : FileShape) (file : List FLine) :
+    loadShaped sh file = validLines sh file ∧
+    (∀ self order, (fileClauses self sh file { loaded := (loadShaped sh file).map some, order := order, panic := false }).head? =
+        some ("bad_lines_skipped", true)) := by
+  have h := loadShaped_eq_validLines sh file
+  exact ⟨h, fun self order => by simp [fileClauses, h]⟩
+
+/-- a file without the shapes: `loadShaped` is `load` -/
+theorem loadShaped_plain (b : Bool) (file : List Line) :
+    loadShaped { finalNewline := b, bom := false } (file.map (fun l => ⟨l, 0⟩)) = load file := by
+  unfold loadShaped load FLine.parses
+  simp only [Bool.false_eq_true, if_false, List.filter_map, List.map_map]
+  induction file with
+  | nil => rfl
+  | cons x t ih => cases hx : x.loads <;> simp_all [List.filter_cons, Function.comp]
+
+example : loadShaped { finalNewline := false, bom := false } [⟨.full 0 1, 1⟩, ⟨.full 2 3, 2⟩, ⟨.empty, 2⟩, ⟨.bare 4, 0⟩] =
+    [.full 0 1, .bare 4] := by decide
+example : loadShaped { finalNewline := true, bom := true } [⟨.full 0 1, 0⟩, ⟨.full 2 3, 0⟩] = [.full 2 3] := by decide
 
 example : load [.long, .full 0 1, .slashBad 3, .noSlash 0, .empty, .bare 2] = [.full 0 1, .bare 2] := by decide
 
